@@ -29,6 +29,39 @@ def judge(c):
         yield ("state-differs", "final state differs: sequential '%s', concurrent '%s'" % (c["seq_digest"][k][:140], c["conc_digest"][k][:140]))
 
 
+def index_stage(ctx, rounds):
+    """the shared PDU index counter.  The theorem (c20_indices_distinct) is about the program the
+    translator read off next_pdu_idx; when it no longer applies, look for a failing execution: every
+    two-thread schedule of up to 6 steps in the model, and OS threads released together against the
+    real PduStorage.  The threaded run is also done when the proof stands (it cannot fail then)."""
+    txt = "\n".join(["From EC Require Import Base.Prelude Pdu.IdxAlloc Gen.IdxProgram.",
+                     "Eval vm_compute in (0, next_pdu_idx_program, find_dup next_pdu_idx_program 6).", ""])
+    (rc, out), = vlib.coq_eval_shards(ctx.pid + "idx", [txt])
+    witness = None
+    if rc == 0:
+        v = vlib.parse_evals(out)
+        if v and "Some" in v[0]:
+            witness = v[0]
+    rc, out, exe = vlib.cargo_build("idxthreads")
+    threads = None
+    if rc != 0:
+        ctx.violation("harness does not build against the current tree: " + out[-400:], {"broken": "correspondence", "log": out[-3000:]}, no_input=True)
+    else:
+        rc, out, _ = vlib.sh([exe, str(rounds), "4", "3"], timeout=900)
+        lines = [json.loads(l) for l in out.splitlines() if l.startswith("{")]
+        if rc != 0 or not lines:
+            ctx.violation("threaded index run did not finish: " + out[-300:], {"broken": "harness-run", "log": out[-1500:]}, no_input=False)
+        else:
+            threads = lines[0]
+    if threads and threads["duplicate_rounds"]:
+        ctx.classify("index-duplicate", "C20 oracle: threads building frames at the same moment were handed the same PDU index (%d of %d rounds; round %d: %s): the response to one is routed to the other" % (
+            threads["duplicate_rounds"], threads["rounds"], threads["first_round"], threads["indices"]), {"threads": threads, "model_schedule": witness})
+    elif witness:
+        ctx.classify("index-duplicate-model", "C20: the index allocation routine as it is in the source hands the same index to two threads under the schedule %s (model, coq/Pdu/IdxAlloc.v); the threaded run did not hit it in %s rounds" % (
+            witness, threads and threads["rounds"]), {"model_schedule": witness, "threads": threads})
+    ctx.coverage["index_allocation"] = {"model_search": "all 64 two-thread schedules of 6 steps: " + ("duplicate under " + witness if witness else "no duplicate"), "threads": threads}
+
+
 def run(ctx, replay=None):
     quick = ctx.tier == "quick"
     vlib.proof_stage(ctx, "Props/C20.v")
@@ -36,6 +69,8 @@ def run(ctx, replay=None):
     ctx.assumptions += ["tasks work on different groups / different SubDevices (the property's premise); at most as many frames in flight as the storage holds",
                         "interleaving at await points of one thread; sequentially consistent atomics",
                         "the C01 (view outlives its slot) and C06 (deadline windows) findings are not re-examined here: no deadline expires in these runs and no view is held across an await"]
+    # (0) the shared PDU index counter: model search over schedules + real threads
+    index_stage(ctx, 2000 if quick else 30000)
     # (a) the PDU loop under several outstanding requests, against the Coq slot model
     cases = sc.run_histories(ctx, "c01", 200 if quick else 2000, 90 if quick else 140)
     dis = -1
@@ -64,7 +99,7 @@ def run(ctx, replay=None):
             if rc != 0 or len(got) < n // nsh:
                 ctx.violation("c20 harness did not finish: " + out[-300:], {"broken": "harness-run", "log": out[-1500:]}, no_input=False)
             runs += got
-    st = {"ok": 0, "skipped": 0, "tasks": {}, "slots": {}, "switches": 0, "reordered_deliveries": 0, "max_inflight": 0, "frames": 0, "kinds": {}}
+    st = {"ok": 0, "skipped": 0, "tasks": {}, "slots": {}, "switches": 0, "reordered_deliveries": 0, "max_inflight": 0, "frames": 0, "kinds": {}, "late_poll_family": 0}
     for c in runs:
         for key, text in judge(c):
             ctx.classify(key, "C20 oracle: " + text, c)
@@ -73,6 +108,7 @@ def run(ctx, replay=None):
         if c["res"] != "Ok":
             continue
         st["ok"] += 1
+        st["late_poll_family"] += 1 if c.get("late") else 0
         st["tasks"][len(c["tasks"])] = st["tasks"].get(len(c["tasks"]), 0) + 1
         st["slots"][c["nslots"]] = st["slots"].get(c["nslots"], 0) + 1
         st["switches"] += c["switches"]
@@ -84,6 +120,6 @@ def run(ctx, replay=None):
             st["kinds"][k] = st["kinds"].get(k, 0) + 1
     ctx.coverage.update(evaluations=len(runs) + (len(cases) if cases else 0),
                         distinct_nontrivial=len({json.dumps([c.get("tasks"), c.get("assign"), c.get("nslots"), c.get("steps")]) for c in runs}),
-                        rule="(b) one evaluation = one network of 2..8 simulated devices in 2..3 groups (EEPROM-configured and CoE devices, loop-back / counter applications) brought to OP, then 2..4 tasks (process-data cycles of distinct groups, register accesses and SDO transfers incl. segmented uploads on distinct SubDevices) run concurrently with frame storage of 2/4/8/16 slots (never fewer than tasks) under a seeded scheduler that picks, at every step, a woken task, the transmit side or any in-flight response (0..500 us apart), versus the same tasks sequentially on an identically built network; compared: every task's result log, the groups' images, device memories and object dictionaries.  (a) multi-request histories of the frame slots against the Coq model",
+                        rule="(b) one evaluation = one network of 2..8 simulated devices in 2..3 groups (EEPROM-configured and CoE devices, loop-back / counter applications) brought to OP, then 2..4 tasks (process-data cycles of distinct groups, register accesses and SDO transfers incl. segmented uploads on distinct SubDevices) run concurrently with frame storage of 2/4/8/16 slots (never fewer than tasks) under a seeded scheduler that picks, at every step, a woken task, the transmit side or any in-flight response (0..500 us apart), versus the same tasks sequentially on an identically built network; compared: every task's result log, the groups' images, device memories and object dictionaries.  One network in four runs in the late-poll family instead: a 1.5 ms response deadline, frames sent as soon as they are sendable, responses delivered in arrival order 0..500 us after sending (so every response is stored inside its deadline) and one task that the scheduler keeps waiting, also past its deadline, while the others run.  (0) the shared PDU index counter: every two-thread schedule of 6 steps of the routine the translator read off next_pdu_idx, and 4 OS threads x 3 datagrams released together against the real storage.  (a) multi-request histories of the frame slots against the Coq model",
                         scheduler=st, slot_model_disagreements=dis,
                         samples=[{"tasks": runs[0].get("tasks"), "nslots": runs[0].get("nslots"), "switches": runs[0].get("switches")}] if runs else [])
